@@ -48,7 +48,11 @@ CLAIMED = {
         "(command trees, spawn with k handles, join) event by event against the protocol machine, well-typedness is preserved by every step, so no reachable configuration can make a racy / "
         "use-after-free / double-free step, and the head event of every started thread is enabled; C04_shared_handles_typed / _safe (Programs.v) — for EVERY number of threads and EVERY "
         "operation sequence per thread (thread 0 clones once per child, moves a clone into each spawned thread, every thread runs its sequence on its handle and drops it, thread 0 joins) the "
-        "initial configuration is well typed, hence all of the above holds for every interleaving and every admissible stale read; C04_atomic_sites — the atomic call sites regenerated from the "
+        "initial configuration is well typed, hence all of the above holds for every interleaving and every admissible stale read; RELEASED EXACTLY ONCE, AFTER THE LAST ACCESS: the typing "
+        "tracks reference counts exactly (cons), so a finished thread holds nothing, and with machine invariant J9 C04_all_finished_released / C04_shared_handles_released show that in any reachable "
+        "configuration where every started thread has finished the buffer is no longer live; FRAME: C04_write_excludes_others / C04_free_excludes_holders / C04_no_interference_while_held - while a "
+        "thread holds a reference and is not running, no successful step of another thread writes, reallocates or frees the buffer; C04_execution_example - an executable scheduler (Sched.v, proved "
+        "sound for the semantics) runs a two-thread program to completion inside Coq; C04_atomic_sites — the atomic call sites regenerated from the "
         "source are exactly the expected ones. NOT proved: that each thread reads back exactly what its own operations would produce sequentially (the data content under interleaving; the "
         "theorems give race freedom, which is what makes the sequential theorem C01 applicable to each thread's buffer accesses, but that last step is an argument, not a theorem), and lending "
         "&LeanString across threads (a borrowed handle only reads: covered by the machine's ARead with the owner's reference, not by a typing rule). Tie to the code: the real crate built with "
